@@ -413,9 +413,12 @@ def rand_orthonormal_matrix_basis(num_orthonormal, dim_qudit, num_qudit=1, num_s
     povm_basis[ind1,ind1,ind1] = 1
     ret = []
     for _ in range(num_sample):
-        tmp0 = np_rng.normal(size=(num_qudit*(num_orthonormal-1),dim_qudit*dim_qudit-1))
-        unitary = to_special_orthogonal_exp(tmp0, dim_qudit).reshape(num_qudit, num_orthonormal-1, dim_qudit, dim_qudit)
-        tmp1 = [[(y[:,:,np.newaxis]*y[:,np.newaxis].conj()) for y in x] for x in unitary]
+        if num_orthonormal>1:
+            tmp0 = np_rng.normal(size=(num_qudit*(num_orthonormal-1),dim_qudit*dim_qudit-1))
+            unitary = to_special_orthogonal_exp(tmp0, dim_qudit).reshape(num_qudit, num_orthonormal-1, dim_qudit, dim_qudit)
+            tmp1 = [[(y[:,:,np.newaxis]*y[:,np.newaxis].conj()) for y in x] for x in unitary]
+        else: #only the computational basis
+            tmp1 = [[] for _ in range(num_qudit)]
         tmp1 = [np.stack([povm_basis]+x, axis=0) for x in tmp1]
         tmp2 = tmp1[0]
         for ind1 in range(1, num_qudit):
